@@ -10,8 +10,8 @@ from ..terms import A, C, F, V, NIL, term_size, pp as show_term
 ID = 'C02'
 LEVEL = 'model_checking'
 RULE = ('every ordered pair (t1,t2) of the term universe (quick: all terms of depth <=1 over variables X,Y,Z, '
-        'atoms a,b,[], Python constants 1, 1000003, \'str\' (passed as equal but distinct objects), functors f/1 f/2 g/1 ./2; thorough: all terms of depth <=2 with <=5 symbols) '
-        'x every stack of earlier, still suspended unifications from the menu (quick: 6 stacks; thorough: every '
+        'atoms a,b,[], Python constants 1, 1000003, \'str\' (passed as equal but distinct objects), functors f/1 f/2 g/1 ./2; thorough: additionally all terms of depth <=2 with <=4 symbols under the 6 menu stacks) '
+        'x every stack of earlier, still suspended unifications from the menu (quick: 6 stacks; thorough: the depth<=1 universe under every '
         'stack of <=2 equations out of 8 that is consistent and acyclic) x every point of the stack at which the unify generator is CREATED (it is always advanced under the whole stack). For each: number of yields, canonical '
         'observation of (X,Y,Z,t1,t2) at the yield vs Robinson unification (mgu up to renaming incl. aliasing), both '
         'terms observe equal, bindings restored after exhaustion and after close(). states = distinct '
@@ -25,7 +25,7 @@ a, b = A('a'), A('b')
 
 
 def bounds(tier):
-    return {'universe': 'depth<=1 (%d terms)' % len(universe('quick')) if tier == 'quick' else 'depth<=2, <=5 symbols',
+    return {'universe': 'depth<=1 (%d terms)' % len(universe('quick')) if tier == 'quick' else 'depth<=2, <=4 symbols (%d terms) x 6 stacks; depth<=1 x %d stacks' % (len(universe('thorough')), len(stacks('thorough'))),
             'stacks': len(stacks(tier))}
 
 
@@ -42,14 +42,14 @@ def universe(tier):
     seen = set(d1)
     for t in d1:
         for cand in (F('f', t), F('g', t)):
-            if cand not in seen and term_size(cand) <= 5:
+            if cand not in seen and term_size(cand) <= 4:
                 seen.add(cand)
                 d2.append(cand)
     for name in ('f', '.'):
         for t in d1:
             for u in d1:
                 cand = F(name, t, u)
-                if cand not in seen and term_size(cand) <= 5:
+                if cand not in seen and term_size(cand) <= 4:
                     seen.add(cand)
                     d2.append(cand)
     return d2
@@ -79,10 +79,10 @@ def stacks(tier):
 
 
 def plan(tier):
-    n = len(universe(tier))
-    ns = len(stacks(tier))
-    nsh = 16 if tier == 'quick' else 256
-    return [(tier, k, nsh) for k in range(nsh)]
+    if tier == 'quick':
+        return [('quick', 'quick', k, 16) for k in range(16)]
+    # thorough = (depth<=2 universe x the 6 menu stacks) + (depth<=1 universe x all stacks of <=2 equations)
+    return [('thorough', 'quick', k, 256) for k in range(256)] + [('quick', 'thorough', k, 64) for k in range(64)]
 
 
 def check_pair(stack, t1, t2, create_at=None):
@@ -188,10 +188,10 @@ def check_pair(stack, t1, t2, create_at=None):
 
 
 def run_shard(spec):
-    tier, k, n = spec
+    utier, stier, k, n = spec
     acc = Acc()
-    U = universe(tier)
-    S = stacks(tier)
+    U = universe(utier)
+    S = stacks(stier)
     for si, st in enumerate(S):
         for i1, t1 in enumerate(U):
             if (si * len(U) + i1) % n != k:
